@@ -1372,7 +1372,7 @@ def compile_pattern(compiler, pattern):
             )
         )
 
-    if str(value) in ("None", "True", "False"):
+    if isinstance(value, Symbol) and str(value) in ("None", "True", "False"):
         return asty.MatchSingleton(
             value,
             value=compiler.compile(value).force_expr.value,
